@@ -94,7 +94,14 @@ type kid struct {
 
 // valuesAt gives the payload of the update stored at list position p.
 func valuesAt(p int) kid {
-	return kid{Ver: 2 + p, CS: int64(100 + p), Lat: 10.5 + float64(p), Lon: 20.25 + float64(p)}
+	k := kid{Ver: 2 + p, CS: int64(100 + p), Lat: 10.5 + float64(p), Lon: 20.25 + float64(p)}
+	switch p % 4 {
+	case 1:
+		k.Lat, k.Lon = 0, 0 // a child moved to 0/0: still a location, it replaces the old one
+	case 3:
+		k.Lat = 0 // on the equator
+	}
+	return k
 }
 
 func memberKind(c Case, i int) int {
